@@ -1,6 +1,7 @@
 import Driver.Proto
 import Driver.C06
 import Driver.C07
+import Driver.C08
 namespace Driver
 
 def dispatch (op : String) : Option Handler :=
@@ -17,6 +18,9 @@ def dispatch (op : String) : Option Handler :=
   | "imath" => some C07.imath
   | "f64" => some C07.f64
   | "f2i" => some C07.f2i
+  | "bin8" => some C08.bin8
+  | "comm8" => some C08.comm8
+  | "un8" => some C08.un8
   | _ => none
 
 def processLine (line : String) : String :=
